@@ -8,9 +8,10 @@
 (* The invariants are theorems about the literal model itself (model check). *)
 EXTENDS GQLLiteral, Json
 CONSTANTS MaxLen, Alphabet, Seeds
-VARIABLE s
+VARIABLES s, n    \* the spelling and the number of characters appended to its seed
 \* seeds: the empty string (exhaustive enumeration up to MaxLen) / a catalogue of longer hand-picked spellings
 SeedsAll == {<<>>}
+SeedsAstral == {<<>>, <<92, 117, 68, 56, 51, 68, 92, 117, 68, 69, 48, 48>>, <<92, 117, 100, 56, 51, 100, 92, 117, 100, 101, 48, 48>>, <<92, 117, 68, 56, 51, 68>>, <<92, 117, 68, 69, 48, 48>>, <<92, 117, 68, 69, 48, 48, 92, 117, 68, 56, 51, 68>>}
 SeedsCat == {
   <<97, 92, 117, 123, 49, 70, 54, 48, 48, 125, 98>>,   \* a\\u{1F600}b
   <<92, 117, 68, 56, 51, 68, 92, 117, 68, 69, 48, 48>>,   \* \\uD83D\\uDE00
@@ -36,10 +37,11 @@ SeedsCat == {
   <<34, 97>>,   \* "a
   <<97, 10, 34, 98, 34, 10>>   \* a\n"b"\n
   }
-GenInit == s \in Seeds
-GenNext == Len(s) < MaxLen /\ \E c \in Alphabet : s' = Append(s, c)
-\* Seeds = {<<>>}: all strings up to MaxLen; a catalogue of longer hand-picked spellings uses Seeds = {...}, MaxLen = 0
-GenSpec == GenInit /\ [][GenNext]_s
+GenInit == s \in Seeds /\ n = 0
+GenNext == n < MaxLen /\ n' = n + 1 /\ \E c \in Alphabet : s' = Append(s, c)
+\* Seeds = {<<>>}: all strings up to MaxLen; a catalogue of longer hand-picked spellings uses Seeds = {...}, MaxLen = 0;
+\* SeedsAstral: escaped surrogates (pair, halves, reversed pair) each extended by up to MaxLen characters
+GenSpec == GenInit /\ [][GenNext]_<<s, n>>
 
 ord == OrdAccepts(s)
 blk == BlockAccepts(s)
